@@ -711,6 +711,7 @@ func runC19(e *Env) error {
 	parallel(e.Workers, len(sjobs), func(i int) { c19Skip(e, sjobs[i]) })
 	c19CLI(e)
 	c19Rebuild(e)
+	c19NameClash(e)
 	// (4) the nested clause over the differ model of C02: random catalogue edit sets x random skip lists
 	{
 		var smu sync.Mutex
